@@ -59,7 +59,14 @@ def execute_stream(sc, workdir):
     stats["scripted_runs"] = sum(1 for r in runs if "script" in r)
     if not os.environ.get("VERIF_KEEP"):
         os.remove(tf)
-    hint = sorted({b[1]["run"] for b in bad})[:1] or None
+    # runs to repeat on the stock interpreter: the first run of every distinct (clause, context class), not just the first bad run --
+    # a scenario that also contains a known finding would otherwise be confirmed on that finding's run only and a new clause in a
+    # later run reported as "not reproduced" (seeded change C13-h)
+    first = {}
+    for b in bad:
+        ctx = b[1] if isinstance(b[1], dict) else {}
+        first.setdefault((b[0], bool(ctx.get("after_partial_flush"))), b[1]["run"])
+    hint = sorted(set(first.values())) or None
     return dict(confirm_hint=hint if not sc.get("confirm_hint") else None, bad=bad, evaluations=len(evs), traces=len(runs), sample=sample, stats=stats, cover=sorted(cover), cover_by_run=cover_by_run, info=v["info"])
 
 
